@@ -760,10 +760,9 @@ def periodic_neighbours(axes):
         Dendrogram.compute(data, neighbours=periodic_neighbours(0))
 
     """
-    try:
-        axes[0]
-    except TypeError:
-        axes = [axes]
+    # a single axis (Python or numpy integer), or any sequence of axes,
+    # including an empty one
+    axes = [int(a) for a in np.atleast_1d(axes)]
 
     def _wrap(c, shp):
         # note: shp is padded along each dimension,
